@@ -128,6 +128,44 @@ def cat_case(n):
                 bounds={"sections": n, "values": "symbolic finite reals"}, expect_ok=False, check_side=False)
 
 
+def link_geometry_case(nH, nC, special=None):
+    """Link::validate on one real link: length, elevation / heading profiles spanning exactly the link, catenary sections inside it"""
+    d = link(1)
+    d["length"] = Sym("len") if special != "length" else SPECIALS["NaN"]
+    d["elevs"] = [{"offset": Sym("eo0"), "elev": Sym("ee0")}, {"offset": Sym("eo1"), "elev": Sym("ee1")}]
+    d["headings"] = [{"offset": Sym(f"ho{i}"), "heading": Sym(f"hh{i}"), "lat": None, "lon": None} for i in range(nH)]
+    d["cat_power_limits"] = [{"offset_start": Sym(f"cs{i}"), "offset_end": Sym(f"ce{i}"), "power_limit": Sym(f"cp{i}"), "district_id": None} for i in range(nC)]
+    d["speed_set"] = {"speed_limits": [{"offset_start": 0, "offset_end": Sym("se"), "speed": 20}], "speed_params": [], "is_head_end": False}
+
+    def ref(c):
+        S = c.S
+        rev = z3.RealVal(_Fr(6.283185307179586)) if any(is_z3(v) for v in S.values()) else 6.283185307179586
+        conds = [XLT(0, S["len"]), XEQ(S["eo0"], 0), XLT(S["eo0"], S["eo1"]), XEQ(S["eo1"], S["len"]), XLE(0, S["se"])]
+        if nH:
+            conds += [XEQ(S["ho0"], 0), XEQ(S[f"ho{nH-1}"], S["len"])] + [XLT(S[f"ho{i}"], S[f"ho{i+1}"]) for i in range(nH - 1)] + [AND(XLE(0, S[f"hh{i}"]), XLT(S[f"hh{i}"], rev)) for i in range(nH)]
+            conds.append(nH >= 2)
+        for i in range(nC):
+            conds += [XLE(0, S[f"cs{i}"]), XLE(S[f"cs{i}"], S[f"ce{i}"]), XLE(0, S[f"cp{i}"])]
+        for i in range(nC - 1):
+            conds.append(XLE(S[f"ce{i}"], S[f"cs{i+1}"]))
+        if nC:
+            conds.append(XLE(S[f"ce{nC-1}"], S["len"]))
+        return AND(*conds)
+
+    if special:
+        claims = [Claim("a link whose length is NaN is rejected", lambda c: False, when="ok", role="special_value_rejected"), Claim("no_panic", None, when="nopanic", role="special_no_panic")]
+    else:
+        claims = [Claim("accepted only if the length is positive, the profiles start at 0, increase and end exactly at the length, and catenary sections lie inside the link", ref, when="ok", role="link_accepts_only_valid"),
+                  Claim("rejected only if one of those rules is broken", lambda c: NOT(ref(c)), when="err", role="link_rejects_only_invalid"),
+                  Claim("no_panic", None, when="nopanic")]
+    c = Case(f"link_geometry_h{nH}_c{nC}" + ("_length_NaN" if special else ""), "C16", LINK, d, [Call("<link_impl::Link as ObjState>::validate", [])], None, claims,
+             bounds={"elevation points": 2, "heading points": nH, "catenary sections": nC, "values": "symbolic finite reals" if not special else "length = NaN"}, expect_ok=False, check_side=False, max_paths=200000)
+    if special:
+        c.no_tv = True
+        c.expect_err = True
+    return c
+
+
 def speed_case(n):
     items = [{"offset_start": Sym(f"s{i}"), "offset_end": Sym(f"e{i}"), "speed": Sym(f"v{i}")} for i in range(n)]
 
@@ -333,6 +371,7 @@ def m_cases(tier):
             for f in FIELDS:
                 cs.append(xref_case(kind, j, f))
     cs += [elevs_case(2), elevs_case(3), elevs_case(2, "Heading"), cat_case(1), cat_case(2), speed_case(1), speed_case(2), speed_case(3)]
+    cs += [link_geometry_case(0, 0), link_geometry_case(2, 0), link_geometry_case(0, 1), link_geometry_case(0, 0, special="length")]
     if tier == "thorough":
         cs += [elevs_case(1), elevs_case(4), elevs_case(3, "Heading"), cat_case(3)]
     return cs
